@@ -206,6 +206,16 @@ def standin_task(task):
             'evaluations': n_replay + n_copy, 'replayed_logs': n_replay, 'copy_checks': n_copy, 'failures': fails[:6]}}
 
 
+def shared_c08_task(task):
+    """nothing happens to a state without a record: an operation that is refused leaves the state as it was (C08's refusal-unchanged
+    obligations of the 16 operations, run here too)"""
+    import props.c08 as p08
+    from pyvc.runner import relabel
+    res = p08.vc_task(task)
+    res['results'] = [r for r in res.get('results', []) if r['kind'] in ('frame', 'canary', 'cover')]
+    return relabel(res, 'C15')
+
+
 def main(argv=None):
     chk = Check('C15', 'other', argv)
     source(EXTRA)
@@ -219,6 +229,12 @@ def main(argv=None):
             tasks.append({'module': 'props.c15', 'fn': 'vc_task', 'name': f'{name}/n{sh.n}', 'contract': name, 'shape': sh.as_dict(),
                           'timeout_ms': 120000 if chk.tier == 'thorough' else 30000, 'weight': sh.n})
     if not only:
+        import contracts.c08 as c08
+        import props.c08 as p08
+        for op in sorted(c08.OPS):
+            for sh in p08.shapes(chk.tier)[:1]:
+                tasks.append({'module': 'props.c15', 'fn': 'shared_c08_task', 'name': f'refusal-leaves-nothing/{op}/n{sh.n}', 'contract': op,
+                              'shape': sh.as_dict(), 'chips': 'int', 'timeout_ms': 60000 if chk.tier == 'thorough' else 20000, 'weight': 5})
         tasks.append({'module': 'props.c15', 'fn': 'scan_task', 'name': 'scans'})
         tasks.append({'module': 'props.c15', 'fn': 'standin_task', 'name': 'standin', 'hands': 120 if chk.tier == 'quick' else 1500,
                       'seed': chk.seed, 'weight': 60})
